@@ -3,7 +3,7 @@
    rules (every id written refers to an existing non-empty entry) are judged by tools/c11.py's independent validator on
    the implementation's output, which the pipeline model reproduces byte for byte. *)
 From Coq Require Import String NArith List Bool.
-From RC Require Import lib.Result lib.Bytes model.Layout model.ChkIo model.RichCodec model.RichIo proofs.C11_proofs proofs.Save_sizes
+From RC Require Import lib.Result lib.Bytes model.Layout model.ChkIo model.RichCodec model.RichIo proofs.C11_proofs proofs.Save_sizes proofs.Str_proofs model.Str
   gen.GenLayouts gen.GenConsts.
 Import ListNotations.
 
@@ -61,3 +61,11 @@ Theorem C11_strict_layouts_have_their_size_for_any_value :
   forall l v bs s, all_strict l = true -> size_l l = Some s -> encode_l l v = Ok bs -> length bs = s.
 Proof. exact strict_encode_size. Qed.
 Print Assumptions C11_strict_layouts_have_their_size_for_any_value.
+
+(* content that cannot be laid out raises: a string table (STR or STRx) holding a string that is not NUL-free 7-bit text
+   is never written (fix cee72c9; before it the first len(s) bytes of the UTF-8 form were written and the table could no
+   longer be decoded) *)
+Theorem C11_a_string_that_cannot_be_stored_is_refused :
+  forall w m s, In s (ss_strings m) -> (exists c, In c s /\ (c = 0 \/ 128 <= c)%N) -> exists e, str_encode w m = Raise e.
+Proof. exact str_encode_refuses. Qed.
+Print Assumptions C11_a_string_that_cannot_be_stored_is_refused.
